@@ -43,7 +43,7 @@ func (w *World) verifyFunc(fn *ssa.Function, c *Contract) *FnRun {
 			return r
 		}
 	}
-	st := &State{vals: map[ssa.Value]Val{}, heap: map[string]string{}, ghost: map[string]Val{}, cuts: map[*ssa.BasicBlock]*loopCut{}, visits: map[*ssa.BasicBlock]int{}}
+	st := &State{vals: map[ssa.Value]Val{}, heap: map[string]string{}, ghost: map[string]Val{}, cuts: map[*ssa.BasicBlock]*loopCut{}, visits: map[*ssa.BasicBlock]int{}, memo: map[string]Val{}}
 	for _, k := range heapKinds {
 		st.heap[k] = r.fresh("H"+k+"0", heapSort(k))
 	}
